@@ -68,7 +68,7 @@ func truncateBoundsSSA(r *Run, f *FuncInfo) {
 			opts = prm
 		}
 	}
-	paths, ok := walkPaths(fn, nil, func(caller, callee *ssa.Function) bool { return callee.Pkg == fn.Pkg })
+	paths, ok := walkPaths(fn, nil, func(caller, callee *ssa.Function) bool { return pkgOf(callee) == fn.Pkg })
 	if !ok || opts == nil {
 		r.Lost("R4", "paths of truncate")
 		return
@@ -78,6 +78,10 @@ func truncateBoundsSSA(r *Run, f *FuncInfo) {
 		c, ok := p.resolve(v).(*ssa.Call)
 		if !ok {
 			return nil, false, false
+		}
+		// utf8.RuneCountInString(x) is len([]rune(x))
+		if pkg, name := staticCalleeName(c); pkg == "unicode/utf8" && name == "RuneCountInString" && len(c.Call.Args) == 1 {
+			return p.resolve(c.Call.Args[0]), true, true
 		}
 		b, ok := c.Call.Value.(*ssa.Builtin)
 		if !ok || b.Name() != "len" || len(c.Call.Args) != 1 {
